@@ -190,11 +190,41 @@ func FLGeo() []string {
 	)
 }
 
+// c19GridGaps: grid bodies x placements (top-level container, inside a container, inside a grid cell, with a sibling and
+// a connection) x every assignment of {unset, 0, 10, 100} to grid-gap, horizontal-gap and vertical-gap. The padding
+// between a nested grid's container and its cells is computed from these keywords at two separate sites of d2grid.
+func c19GridGaps(thorough bool, visit func(src string, elk bool)) {
+	bodies := []string{"grid-rows: 2; x; y; z", "grid-columns: 2; x; y; z", "grid-rows: 2; grid-columns: 2; x; y; z; w: Lorem ipsum dolor"}
+	places := []string{"g: {%s}", "c.g: {%s}\nc.d", "o: {grid-columns: 1; g: {%s}; k}", "g: Grid label {%s}\na -> g"}
+	vals := []string{"", "0", "10", "100"}
+	for _, b := range bodies {
+		for pi, pl := range places {
+			for _, gg := range vals {
+				for _, hg := range vals {
+					for _, vg := range vals {
+						body := b
+						if gg != "" {
+							body += "; grid-gap: " + gg
+						}
+						if hg != "" {
+							body += "; horizontal-gap: " + hg
+						}
+						if vg != "" {
+							body += "; vertical-gap: " + vg
+						}
+						visit(fmt.Sprintf(pl, body), thorough || (pi == 0 && gg == ""))
+					}
+				}
+			}
+		}
+	}
+}
+
 func init() {
 	eng.Register(&eng.Check{
 		ID: "C19", Level: "exploration", HangBound: 900 * time.Second,
 		QuickBudget: 240 * time.Second, ThoroughBudget: 24 * time.Minute,
-		Rule: "every program of <=k statements over the geometry fragment FLgeo (FL without stand-alone sequence diagrams, plus crowded containers: several children, long labels, outside labels/icons, 3d/multiple, explicit sizes, grids and a sequence diagram as children) laid out with dagre and ELK; on the exported d2target.Diagram every shape must lie inside its parent shape's box and shapes with the same parent (top level included) must not overlap, both within 1 px; non-trivial = at least one child/parent or sibling pair was compared; outcome = multiset of exported boxes",
+		Rule: "every program of <=k statements over the geometry fragment FLgeo (FL without stand-alone sequence diagrams, plus crowded containers: several children, long labels, outside labels/icons, 3d/multiple, explicit sizes, grids and a sequence diagram as children) laid out with dagre and ELK, plus nested grids (3 bodies x 4 placements) x every assignment of {unset,0,10,100} to grid-gap / horizontal-gap / vertical-gap; on the exported d2target.Diagram every shape must lie inside its parent shape's box and shapes with the same parent (top level included) must not overlap, both within 1 px; non-trivial = at least one child/parent or sibling pair was compared; outcome = multiset of exported boxes",
 		Assumptions: []string{
 			"objects inside sequence diagrams are excluded (C23); the sequence diagram object itself is checked as a child and sibling",
 			"top-level constant-near shapes are excluded from the sibling clause (C24 places them relative to the bounding box)",
@@ -213,6 +243,14 @@ func init() {
 			})
 			chunked(w, "FLgeo=2:dagre", 6, func(emit func(string, string)) {
 				forPrograms("", geo, 2, func(src string) { emit("layout", mkIn("dagre", src)) })
+			})
+			chunked(w, "nested-grids*gap-cube:dagre(+elk)", 4, func(emit func(string, string)) {
+				c19GridGaps(w.Thorough(), func(src string, elk bool) {
+					emit("layout", mkIn("dagre", src))
+					if elk {
+						emit("layout", mkIn("elk", src))
+					}
+				})
 			})
 			if !w.Thorough() {
 				chunked(w, "FLsmall=2:elk", 6, func(emit func(string, string)) {
